@@ -1728,6 +1728,12 @@ class Interp:
             return SMapZ(old.kkind, old.vkind, c.fresh(name + "_has", old.has.sort()),
                          c.fresh(name + "_val", old.val.sort()),
                          c.fresh(name + "_none", old.valnone.sort()) if old.valnone is not None else None)
+        if isinstance(old, SObj):
+            # an object carried across iterations: some other object of the same class (fields unknown, defaulted on demand)
+            return SObj(old.cls, {}, label=f"{old.label}'")
+        if old is None:
+            from .values import usort
+            return SOpt(c.fresh_bool(name + "_none"), SOpaque("pyobject", c.fresh(name, usort("pyobject"))))
         raise Unsupported(f"cannot havoc loop variable {name} of kind {type(old).__name__}; "
                           f"give the loop spec a custom havoc")
 
@@ -1764,6 +1770,7 @@ class Interp:
             return
         except ContinueSig:
             pass
+        it["after_body"] = True
         for nm, inv in spec.invariant(self, env, it) if spec.invariant else []:
             self.ctx.check(f"loop{node.lineno}:{spec.name}:inv-preserved:{nm}", inv)
         if dec0 is not None:
